@@ -80,6 +80,9 @@ type ReqState struct {
 	Req   *http.Request
 	Ctx   *rux.Context // the context the first handler saw (pointer identity = pool reuse)
 	First func(c *rux.Context)
+
+	Recovered  any // what the OnPanic hook found under CTXRecoverResult
+	NRecovered int // how often the OnPanic hook ran
 }
 
 // NewWorld creates an empty world.
@@ -127,6 +130,8 @@ func (w *World) PanicHook(s *Script) rux.HandlerFunc {
 	return func(c *rux.Context) {
 		st := w.state(c.Req)
 		v, _ := c.Get(rux.CTXRecoverResult)
+		st.Recovered = v
+		st.NRecovered++
 		st.Tr.Add("OnPanic recovered=%s", label(v))
 		Run(s, &RCtx{C: c, NoAbt: st.NoAbt}, st.Tr)
 	}
@@ -172,7 +177,7 @@ func Diff(real, want Outcome) string {
 	if real.Log != want.Log {
 		ss = append(ss, fmt.Sprintf("underlying writer calls differ:\n rux:   %s\n model: %s", real.Log, want.Log))
 	}
-	if real.Escaped != want.Escaped {
+	if labelOrNil(real.Escaped) != labelOrNil(want.Escaped) {
 		ss = append(ss, fmt.Sprintf("escaped panic differs: rux %s, model %s", labelOrNil(real.Escaped), labelOrNil(want.Escaped)))
 	}
 	return strings.Join(ss, "\n")
